@@ -52,7 +52,7 @@ func has(xs []int, g int) bool {
 }
 
 // the plugin reads the state locations once, when its package is initialised: they are fixed per process (checks/x05.py)
-func execPlugin(tr *vh.Trace, fam Family, run Run, _ string) {
+func execPlugin(tr *vh.Trace, fam Family, run Run, ri int, _ string) {
 	disc, rem, pol := os.Getenv("DISCOVERY_STATE_LOCATION"), os.Getenv("REMEDY_STATE_LOCATION"), os.Getenv("LUNAR_PROXY_POLICIES_CONFIG")
 	if disc == "" || rem == "" || pol == "" {
 		vh.Die("plugin mode needs DISCOVERY_STATE_LOCATION, REMEDY_STATE_LOCATION, LUNAR_PROXY_POLICIES_CONFIG")
@@ -69,7 +69,7 @@ func execPlugin(tr *vh.Trace, fam Family, run Run, _ string) {
 	rel := func() int64 { return time.Now().Unix() - ref }
 	maxGen := 0
 	writeAt := map[int]time.Time{}
-	tr.Add(vh.Ev{"ev": "reset"})
+	tr.Add(vh.Ev{"ev": "reset", "run": ri})
 	start := func() *x05plugin.Host {
 		h := x05plugin.NewHost()
 		ev := vh.Ev{"ev": "start", "t0": rel()}
@@ -125,6 +125,9 @@ func execPlugin(tr *vh.Trace, fam Family, run Run, _ string) {
 			ev["since_write_ms"] = sinceWrite
 			gensBefore := probeGens(host, maxGen)
 			treeBefore := host.Tree()
+			// what that tree answers before the flush: discovery inserts the chunk's URLs into it during the flush, and
+			// whether the remedy statistics look a URL up before or after that is not part of the statement (attr0 / attr)
+			ev["attr0"] = lookups(treeBefore, recs)
 			rc := 0
 			if err := guard(func() error { rc = host.Flush(data); return nil }); err != nil {
 				ev["err"] = err.Error()
